@@ -12,7 +12,7 @@ TECHNIQUE = "runtime monitoring: reconstruction post-condition + derivative-vs-a
 RULE = ("cases = routine (numpy threshold routine / jax fixed-count routine / shell-chunked) x matrix class (random rank r of n<=12, "
         "full rank, rank one, scaled diagonals 1e-8..1e4, block-of-ones tied pivots, symmetrised Cholesky-built ERI) x "
         "threshold 1e-3..1e-10 x seed; non-trivial = rank >= 2 or n >= 3; jax derivative cases need cond(V^T V) <= 1e6")
-MIN_NONTRIVIAL = {"quick": 80, "thorough": 800}
+MIN_NONTRIVIAL = {"quick": 50, "thorough": 500}
 TIMEOUT = {"quick": 900, "thorough": 3600}
 ASSUMPTIONS = ["inputs symmetric positive semi-definite",
                "element-wise tolerance = threshold + 1e-9 max(1, max|M|) (regulariser 1e-10 in the NumPy routine, round-off)",
